@@ -58,6 +58,8 @@ BaseInstances ==
   {Inst("non_enum", d, "", s, "", FALSE) : d \in Derives, s \in {"struct", "tuple_struct", "unit_struct", "union"}}
   \* a data-carrying variant for VariantArray / EnumTable
   \cup {Inst("data_variant", d, "", s, p, FALSE) : d \in {"VariantArray", "EnumTable"}, s \in {"tuple", "named"}, p \in Positions}
+  \* ... also when that variant is marked disabled: VariantArray lists every declared variant, so it has to be a unit variant
+  \cup {Inst("data_variant", "VariantArray", "", s, p, FALSE) : s \in {"tuple_disabled", "named_disabled", "tuple0_disabled"}, p \in Positions}
   \* a lifetime parameter for EnumIter / FromRepr / EnumTable
   \cup {Inst("lifetime", d, "", s, "", FALSE) : d \in {"EnumIter", "FromRepr", "EnumTable"}, s \in {"lt", "lt_ty", "lt_only_disabled"}}
   \* a repeated single-use attribute, within one attribute and across attributes
@@ -69,6 +71,9 @@ BaseInstances ==
   \* default / transparent on a variant without exactly one field
   \cup {Inst("default_arity", d, "default", s, p, FALSE) : d \in {"EnumString", "Display"}, s \in {"unit", "tuple2", "named2", "tuple0"}, p \in {"first", "last"}}
   \cup {Inst("transparent_arity", d, "transparent", s, p, FALSE) : d \in {"Display", "AsRefStr", "IntoStaticStr"}, s \in {"unit", "tuple2", "named2", "tuple0"}, p \in {"first", "last"}}
+  \* ... also when the variant carries a to_string / serialize next to `transparent`
+  \cup {Inst("transparent_arity", d, "transparent", s, p, FALSE) : d \in {"Display", "AsRefStr", "IntoStaticStr"},
+                                                                    s \in {"unit_ts", "tuple2_ts", "named2_ts", "tuple0_ts", "tuple2_ser"}, p \in {"first", "last"}}
   \* placeholders on a unit variant; an empty {} on a tuple variant
   \cup {Inst("unit_placeholder", "Display", "to_string", s, p, FALSE) : s \in {"index", "name", "spec", "via_serialize", "via_prefix",
                                                                             "nonascii_arg", "nonascii_before", "nonascii_around", "nonascii_prefix", "names_const_in_scope", "names_static_in_scope"}, p \in {"first", "last"}}
